@@ -101,6 +101,11 @@ type Engine struct {
 	funcIndex map[string]*ssa.Function
 	reassigned map[*ssa.Global]bool
 	macros map[string]*Macro
+	closedIfaces map[string]bool
+	heapKinds map[string]SortKind
+	globalInv map[string]*Clause
+	globalInvPkg map[string]*ssa.Package
+	heapStructs map[string]types.Type
 	records map[string]*Sort
 	recordOrder []string
 }
@@ -167,6 +172,11 @@ func loadEngine(repo string, patterns []string) (*Engine, error) {
 	}
 	e.errConst("io.EOF")
 	e.macros = map[string]*Macro{}
+	e.closedIfaces = map[string]bool{}
+	e.heapKinds = map[string]SortKind{}
+	e.globalInv = map[string]*Clause{}
+	e.globalInvPkg = map[string]*ssa.Package{}
+	e.heapStructs = map[string]types.Type{}
 	e.records = map[string]*Sort{}
 	e.ghosts["cb_n"] = sInt
 	return e, nil
@@ -343,6 +353,30 @@ func (e *Engine) loadSpecFile(path string, pkg *ssa.Package) error {
 		case "ghostfield":
 			f := strings.Fields(rest)
 			e.ghostFields[f[0]] = e.sortByName(e.tcProto, f[1], pkg)
+		case "globalinv": // globalinv pkg.Var: expr   (assumed whenever the package-level variable is read: M5)
+			i := strings.Index(rest, ":")
+			if i < 0 {
+				return fmt.Errorf("%s: bad globalinv %q", path, rest)
+			}
+			x, err := ParseSpec(strings.TrimSpace(rest[i+1:]))
+			if err != nil {
+				return fmt.Errorf("%s: %v", path, err)
+			}
+			e.globalInv[strings.TrimSpace(rest[:i])] = &Clause{Src: rest, X: x}
+			e.globalInvPkg[strings.TrimSpace(rest[:i])] = pkg
+		case "closed": // closed pkg.Iface : all implementations of this interface are inside the repository
+			f := strings.Fields(rest)
+			for _, n := range f {
+				if i := strings.Index(n, "."); i > 0 {
+					if p := e.pkgByName[n[:i]]; p != nil {
+						if obj := p.Pkg.Scope().Lookup(n[i+1:]); obj != nil {
+							if it, ok := obj.Type().Underlying().(*types.Interface); ok {
+								e.closedIfaces[it.String()] = true
+							}
+						}
+					}
+				}
+			}
 		case "record": // record Name(f sort, g sort)
 			m := regexp.MustCompile(`^([A-Za-z_][A-Za-z0-9_]*)\s*\(([^)]*)\)$`).FindStringSubmatch(rest)
 			if m == nil {
@@ -829,4 +863,48 @@ func specDeps(x *SX, e *Engine, acc []string) []string {
 		acc = specDeps(a, e, acc)
 	}
 	return acc
+}
+
+// implementations lists the concrete types of the repository that implement an interface. It is only used
+// for interfaces that are declared in the repository and have an unexported method or are listed as closed.
+func (e *Engine) implementations(iface *types.Interface) []types.Type {
+	closed := false
+	for i := 0; i < iface.NumMethods(); i++ {
+		if !iface.Method(i).Exported() {
+			closed = true
+		}
+	}
+	key := iface.String()
+	if !closed && !e.closedIfaces[key] {
+		return nil
+	}
+	var out []types.Type
+	seen := map[string]bool{}
+	for _, p := range e.prog.AllPackages() {
+		if !strings.HasPrefix(p.Pkg.Path(), "gitlab.com/gomidi/midi/v2") {
+			continue
+		}
+		for _, m := range p.Members {
+			tn, ok := m.(*ssa.Type)
+			if !ok {
+				continue
+			}
+			T := tn.Type()
+			for _, cand := range []types.Type{T, types.NewPointer(T)} {
+				if _, isIface := cand.Underlying().(*types.Interface); isIface {
+					continue
+				}
+				if types.Implements(cand, iface) && !seen[cand.String()] {
+					// prefer the value type when both implement
+					if pt, isPtr := cand.(*types.Pointer); isPtr && types.Implements(pt.Elem(), iface) {
+						continue
+					}
+					seen[cand.String()] = true
+					out = append(out, cand)
+				}
+			}
+		}
+	}
+	sort.Slice(out, func(i, j int) bool { return out[i].String() < out[j].String() })
+	return out
 }
